@@ -1259,6 +1259,8 @@ package cose
 //@   callsite full_y [C14] EncMode.Marshal#1: int64Labels(k.Params) && k.Type == 2 && sizeOf(pCurve(k.Params)) > 0 && len(pBytes(k.Params, -3)) == sizeOf(pCurve(k.Params))
 //@         ==> arg1 is map[any]any && int64(-3) in arg1.(map[any]any) && arg1.(map[any]any)[int64(-3)] == k.Params[int64(-3)]
 //@   loop 1 invariant common_kept [C08]: commonFields(k, tmp)
+//@   callsite rest_kept [C08, C14] EncMode.Marshal#1: int64Labels(k.Params) ==> arg1 is map[any]any
+//@         && (forall q any :: q in k.Params && q is int64 && q != int64(-2) && q != int64(-3) ==> q in arg1.(map[any]any) && arg1.(map[any]any)[q] == k.Params[q])
 //@   callsite common [C08, C14, C15] EncMode.Marshal#1: arg1 is map[any]any && int64(1) in arg1.(map[any]any)
 //@   callsite common_fields [C08] EncMode.Marshal#1: arg1 is map[any]any && commonFields(k, arg1.(map[any]any))
 
